@@ -1,5 +1,5 @@
 """C14 - text operations count characters; % formatting follows the directives (ZnText, ZnFmt)."""
-import random, json, common
+import random, json, os, re, common
 from common import log
 
 
@@ -103,6 +103,48 @@ def run(ctx):
                         rep("huge-precision", "template %r: neither an error nor a rendering of the number: %r" % (r["tpl"], g[:80]))
                 elif run_.get("got") != run_["want"]:
                     rep("text", "template %r with %s arguments: expected %r, got %r" % (r["tpl"], run_["shape"], run_["want"], run_.get("got")))
+    # ---- one text VARIABLE observed before / between / after text methods: every observation must describe one character sequence
+    CALLS = ["转换数值", "去除空格", "转小写-英文", "转大写-英文", "替换：“1”、“2”", "分隔：“.”", "匹配：“1”", "匹配开头：“1”", "匹配结尾：“3”", "取样：1、2", "拼接：【“a”，“b”】", "格式化：【1】"]
+    TEXTS = ["1.5*10^3", "2*^5", "12", "-3.5e2", "1*10^3甲", " ab ", "ABC", "甲乙丙", "a😀b", "", "e\u0301x", "{}", "1.5*10^3*10^2"]
+    hcases = []
+    for tx in TEXTS:
+        for a in CALLS:
+            for b_ in CALLS:
+                if not quick or rnd.random() < 0.5:
+                    hcases.append(dict(id=len(hcases), text=tx, calls=[a, b_]))
+    hres = common.run_harness(ctx, znh, "texthist", hcases, timeout=1500)
+    rows = []
+    def sv(x): return x.get("v") if x.get("t") == "str" else None
+    for r in hres:
+        c = hcases[r["id"]]
+        if r["obs"] != "value" or len(r["display"]) != len(c["calls"]) + 1:
+            common.report(ctx, "texthist:%s" % r["obs"], "text %r, calls %s: the observing program did not complete: %s" % (c["text"], c["calls"], r.get("msg")), dict(case=c, source=r.get("src"))); continue
+        for k, d in enumerate(r["display"]):
+            chars = [sv(x) for x in d[2]["v"]] if d[2].get("t") == "list" else None
+            split = [sv(x) for x in d[3]["v"]] if d[3].get("t") == "list" else None
+            num = lambda x: int(x["s"]) if x.get("t") == "num" and x["s"].lstrip("-").isdigit() else -7
+            joined = "".join(chars) if chars is not None and None not in chars else None
+            row = dict(len=num(d[0]), count=num(d[1]), nchars=len(chars) if chars is not None else -7, nsplit=len(split) if split is not None else -8,
+                       nslice=len(sv(d[4])) if sv(d[4]) is not None else -1, text_is_chars=(sv(d[5]) is not None and sv(d[5]) == joined),
+                       split_is_chars=(split == chars), slice_is_chars=(sv(d[4]) == joined))
+            # python str len counts code points = Zn characters
+            rows.append((row, c, k, d))
+    tf = os.path.join(ctx.scratch, "trace-zntext.ndjson")
+    with open(tf, "w") as f:
+        for row, c, k, d in rows:
+            f.write(json.dumps(row) + "\n")
+    common.corrupt_trace(tf, ["count", "nsplit"])
+    ttxt, tinfo = common.tlc(ctx, "Trace_ZnText", "Trace_ZnText.cfg", workers=1, timeout=900, files=[(tf, "trace.ndjson")], allow_violation=True)
+    if tinfo["violated"]:
+        if not tinfo.get("postcondition_failed"):
+            raise common.NoVerdict("Trace_ZnText failed unexpectedly:\n" + common.tail(ttxt))
+        m = re.search(r"The depth of the complete state graph search is (\d+)", ttxt)
+        upto = int(m.group(1)) - 1 if m else 0
+        row, c, k, d = rows[min(upto, len(rows) - 1)]
+        common.report(ctx, "texthist:inconsistent:%s" % (c["calls"][k - 1] if k > 0 else "initial"),
+                      "text %r after calls %s: the observers describe no single character sequence: %s" % (c["text"], c["calls"][:k], json.dumps(row)),
+                      dict(case=c, observation=d, row=row, line=upto + 1))
+    cov_extra = dict(text_history_programs=len(hcases), text_history_rows=len(rows), text_history_accepted=not tinfo["violated"])
     cov = dict(traces_validated_against_impl=len(tcases) + nruns, samples=[tv[3], fv[7]],
                evaluations=len(tcases) * 7 + nruns, distinct_nontrivial=len(tcases) + len(fcases),
                rule="text: all texts <= 4 over 5 width classes (ASCII, 2-byte, CJK, astral, combining mark) x index pairs from {-6,-2,-1,0..6}: 长度/字数, 字符组, 分隔 by the "
@@ -111,6 +153,7 @@ def run(ctx):
                     "directive plan or error) x 4 argument shapes (numbers, other plain values, one short, one long): result text or error must agree; numeric digits are "
                     "strconv's for the verb/precision/sign the spec selected (quick: seeded 30000 text and 40000 template vectors)" % (5 if quick else 6),
                text_vectors=len(tcases), fmt_vectors=len(fcases), fmt_runs=nruns)
+    cov.update(cov_extra)
     return cov, ["digit-exact rendering of arbitrary doubles is delegated to strconv.FormatFloat for the verb/precision the spec selects (DESIGN section 6)",
                  "{#.} {#E} {#%} (directive forms the manual does not list) are not demanded", "display form of numbers in {} is the interpreter's own String()"]
 
